@@ -50,6 +50,7 @@ type Interp struct {
 	denoms    []string
 	allowPanic bool
 	pathNotes []string
+	observed  []obsTerm
 	initStored map[*ssa.Global]bool
 	initTouched map[*Cell]bool
 	mapOrder  bool
@@ -368,6 +369,7 @@ func (it *Interp) callFunction(fn *ssa.Function, args []Value, bindings []Value,
 	if ov, ok := it.P.Overrides[name]; ok {
 		return it.callFunction(ov, args, nil, site)
 	}
+	it.P.noteFunc(it.R, fn)
 	if fn.Blocks == nil {
 		if fn.Pkg != nil {
 			fn.Pkg.Build()
